@@ -172,8 +172,20 @@ def run(ctx):
             continue
         if a and c and st and ev.index(a[0]) < ev.index(c[0]) < ev.index(st[0]):
             d3.ok('Reaction.adiabatic_reaction', 'Hnet+Q is read before the reaction is applied', g, a[0].stmt)
+            # where is the Hf that enters the stored value read?  In the store itself, or in a local assigned after the reaction was applied
+            def hf_read_after(expr, upto, depth=0):
+                if '%s.Hf' % s in src(expr):
+                    return True
+                if depth > 2:
+                    return False
+                for x in ast.walk(expr):
+                    if isinstance(x, ast.Name):
+                        defs_ = [e for e in ev[:upto] if e.kind == 'assign' and e.target == x.id and isinstance(e.stmt, ast.Assign)]
+                        if defs_ and ev.index(defs_[-1]) > ev.index(c[0]) and hf_read_after(defs_[-1].stmt.value, ev.index(defs_[-1]), depth + 1):
+                            return True
+                return False
             if st[0].value == Form.atom('%s.Hnet' % s) + Form.atom('Q') - Form.atom('%s.Hf' % s) \
-                    and '%s.Hf' % s in src(st[0].stmt.value):
+                    and hf_read_after(st[0].stmt.value, ev.index(st[0])):
                 d3.ok('Reaction.adiabatic_reaction', 'H <- (Hnet+Q) - Hf with Hf read after the reaction', g, st[0].stmt)
             else:
                 d3.fail('Reaction.adiabatic_reaction', 'closure', 'H is assigned %s, expected Hnet+Q-Hf(after)' % st[0].value, g, st[0].stmt)
